@@ -180,6 +180,50 @@ func checkC18(c *Ctx) {
 					r.Check(pathOf(a[0]) == "addr", "C18.2", "PhantomIsLive: "+recv[strings.LastIndex(recv, ".")+1:]+".Add keyed by the probed address", cc.Pos(), fnName(f), pathOf(a[0]), "the verdict is cached under a key other than the probed address")
 				}
 			}
+			// an entry is (re)stored only with a measurement made in this call: no cache Add - direct or through a helper -
+			// is reachable without passing the probe (otherwise a hit restarts the entry's lifetime: sliding expiry)
+			var addsCache func(g *ssa.Function, d int) bool
+			addsCache = func(g *ssa.Function, d int) bool {
+				if g == nil || g.Blocks == nil || d > 3 {
+					return false
+				}
+				found := false
+				eachInstr(g, func(in ssa.Instruction) {
+					ci, ok := in.(ssa.CallInstruction)
+					if !ok {
+						return
+					}
+					if ci.Common().IsInvoke() && ci.Common().Method.Name() == "Add" && strings.Contains(typeShort(ci.Common().Value.Type()), "cache") {
+						found = true
+					}
+					if cal := ci.Common().StaticCallee(); cal != nil && isRepoPath(fnPkgPath(cal)) && addsCache(cal, d+1) {
+						found = true
+					}
+				})
+				return found
+			}
+			stores := map[ssa.Instruction]bool{}
+			eachInstr(f, func(in ssa.Instruction) {
+				ci, ok := in.(ssa.CallInstruction)
+				if !ok {
+					return
+				}
+				if ci.Common().IsInvoke() && ci.Common().Method.Name() == "Add" && strings.Contains(pathOf(ci.Common().Value), ".ipCache") {
+					stores[in] = true
+				}
+				if cal := ci.Common().StaticCallee(); cal != nil && isRepoPath(fnPkgPath(cal)) && addsCache(cal, 0) {
+					stores[in] = true
+				}
+			})
+			if len(stores) > 0 {
+				noProbe, w := reach(f, nil, anyOf(stores), isInstr(probe), nil)
+				if noProbe {
+					r.Bad("C18.2", "PhantomIsLive: a cache entry can be stored without a measurement made in this call", probe.Pos(), fnName(f),
+						"a cache Add is reachable on a path that does not pass the probe (e.g. on a cache hit): the entry's timestamp is then renewed without a new measurement, so a verdict older than the configured lifetime keeps being served", r.blockPath(f, w)...)
+				} else {
+					r.OK("C18.2", "PhantomIsLive: entries are stored only after the probe of this call", probe.Pos(), fmt.Sprintf("%d storing call(s), each preceded by the probe on every path", len(stores)))
+				}
+			}
 			// probe only on double miss
 			var lk *ssa.Call
 			for _, call := range callsIn(f, shortIs("phantomLookup")) {
